@@ -1319,12 +1319,13 @@ static void do_send(int kind, int from, int to, long topic_idx, bool autofree, i
             for (auto &o : W->slots) {
                 if (o.st != ST_RUNNING && o.st != ST_PAUSED) continue;
                 if (kind == 2) { sd.eligible.push_back(o.idx); continue; }
-                bool match = false, oneshot = false;
+                bool match = false, oneshot = false, low = false;
                 for (auto &kv : o.subs) {
                     bool m1 = kv.first == topic || (kv.second.re_ok && regexec(&kv.second.re, topic, 0, nullptr, 0) == 0);
-                    if (m1) { match = true; if (kv.second.flags & M_SRC_ONESHOT) oneshot = true; }
+                    if (m1) { match = true; if (kv.second.flags & M_SRC_ONESHOT) oneshot = true; if (kv.second.flags & M_SRC_PRIO_LOW) low = true; }
                 }
                 if (match) sd.eligible.push_back(o.idx);
+                if (match && low) sd.low_matched.insert(o.idx);
                 if (match && oneshot) sd.oneshot_matched.insert(o.idx);
             }
         }
